@@ -265,6 +265,13 @@ class Verdict:
 
     def finish(self):
         """prints lines, returns (exit_code, n_violations)"""
+        try:
+            return self._finish()
+        except BrokenPipeError:      # the reader of our stdout went away; the verdict stands
+            n = len({f[0] for f in self.failures}) or (1 if self.proof_failures else 0)
+            return (1 if n else 0), n
+
+    def _finish(self):
         nviol = 0
         reported_known = set()
         seen_sigs = set()
